@@ -320,7 +320,11 @@ class FunctorPool:
             if len(chunks) > 0:
                 return indexes, chunks
 
-        res_i, res_chunk = self._results_queue.get()
+        try:
+            # bounded wait, so the caller can re-check whether there is still something to wait for
+            res_i, res_chunk = self._results_queue.get(timeout=0.1)
+        except queue.Empty:
+            return [], []
         return [res_i], [res_chunk]
 
     def imap(self, data: Iterable[T], chunk_size: int = 1) -> Generator[R, None, None]:
